@@ -3,19 +3,99 @@ import GmqttVerif.Model.Fed.PeerSession
   Model of `Federation.sendMessage` / `sendSharedMsg` (hooks.go): which peers get a copy of a message
   published on this node, and what the node does with its own local delivery (`drop`, `options`).
 
-  Inputs, all explicit:
-    self      `f.nodeName`
-    peers     keys of `f.peers` (the nodes that have an outgoing queue)
-    fedSubs   content of `f.fedSubStore` : (node, shareName, topicFilter)
-    locals    content of the broker's own subscription store `localSubStore.localStore`: (client, shareName, topicFilter)
-    sent      `fedSubStore.sharedSent`: round-robin counter per full shared topic name — the "random pick" input
-    msg       topic, retained flag (payload does not influence routing)
+  Two layers.
+
+  `routeCore` — the combinatorial part, generic in the type of node names `ν` and of shared-topic keys `κ`.
+     Its input is what the three `Iterate` calls of `sendMessage` produce:
+       localShared     full topic name of every local shared subscriber that matches (one entry per SUBSCRIBER)
+       fedShared       (node, full topic name) of every matching shared entry of the federation tree
+       fedNonShared    node of every matching non-shared entry of the federation tree
+       localNonShared  does any local non-shared subscription match
+     plus `self`, `peers` (keys of `f.peers`), the round-robin counters `sent` (`fedSubStore.sharedSent`, the "random
+     pick" input) and `sort` (`sort.Strings`).
+
+  `route` — the instance for strings: the lists are computed from the store contents with the matching functions of
+     `Model/Fed/Topic.lean`.  This is what the oracle runs and what stream `fedroute` compares with the real code.
 
   Go iterates maps in random order; every use below is order-independent except the ORDER of `targets`
-  (compared after sorting) — the `sent[...]`-set logic makes the set of targets and `drop/options` independent
+  (compared after sorting): the `sent[...]`-set logic makes the set of targets and `drop/options` independent
   of the order in which the shared topics are visited.
 -/
 namespace GmqttVerif.Fed
+
+structure CoreIn (ν κ : Type) where
+  self           : ν
+  peers          : List ν
+  localShared    : List κ
+  fedShared      : List (ν × κ)
+  fedNonShared   : List ν
+  localNonShared : Bool
+  sent           : List (κ × Nat)
+
+structure CoreOut (ν κ : Type) where
+  targets : List ν                 -- peers whose queue got the message (one `queue.add` each), in call order
+  drop    : Bool                   -- local node must not deliver at all
+  nonSharedOnly : Bool             -- `options != nil`: local delivery restricted to non-shared subscriptions
+  sent    : List (κ × Nat)         -- counters afterwards
+  deriving Repr, DecidableEq
+
+section core
+variable {ν κ : Type} [DecidableEq ν] [DecidableEq κ]
+
+def counter (sent : List (κ × Nat)) (t : κ) : Nat := ((sent.find? (·.1 == t)).map (·.2)).getD 0
+
+def bump (sent : List (κ × Nat)) (t : κ) : List (κ × Nat) :=
+  if sent.any (·.1 == t) then sent.map (fun p => if p.1 == t then (t, p.2 + 1) else p) else sent ++ [(t, 1)]
+
+/-- `sharedList[topic] = append(sharedList[topic], node)` -/
+def pushShared (sl : List (κ × List ν)) (t : κ) (node : ν) : List (κ × List ν) :=
+  if sl.any (·.1 == t) then sl.map (fun p => if p.1 == t then (t, p.2 ++ [node]) else p) else sl ++ [(t, [node])]
+
+/-- keys of a Go `map[string]struct{}` filled in this order: first occurrences -/
+def dedupS : List ν → List ν
+  | [] => []
+  | x :: xs => x :: (dedupS xs).filter (· != x)
+
+/-- the shared map built by the two `Iterate` calls: full shared topic ↦ node names (this node once per
+    matching local shared subscriber, every other node once per matching shared entry) -/
+def sharedListCore (i : CoreIn ν κ) : List (κ × List ν) :=
+  i.fedShared.foldl (fun sl p => pushShared sl p.2 p.1) (i.localShared.foldl (fun sl t => pushShared sl t i.self) [])
+
+structure Acc (ν κ : Type) where
+  targets : List ν
+  sentSet : List ν
+  drop    : Bool
+  nso     : Bool
+  cnt     : List (κ × Nat)
+
+/-- one iteration of `sendSharedMsg`'s loop including the `send` closure of `sendMessage` -/
+def sharedStep (sort : List ν → List ν) (i : CoreIn ν κ) (a : Acc ν κ) (p : κ × List ν) : Acc ν κ :=
+  let v := sort p.2
+  let a1 := { a with cnt := bump a.cnt p.1 }
+  match v[counter a.cnt p.1 % v.length]? with
+  | none => a1                                  -- not reachable: `v` is never empty
+  | some pick =>
+    if pick == i.self then a1
+    else if a1.sentSet.contains pick then a1
+    else
+      let a2 := { a1 with sentSet := a1.sentSet ++ [pick] }
+      if i.peers.contains pick then
+        if i.localNonShared then { a2 with targets := a2.targets ++ [pick], drop := false, nso := true }
+        else { a2 with targets := a2.targets ++ [pick], drop := true }
+      else a2
+
+/-- `sendMessage` -/
+def routeCore (sort : List ν → List ν) (i : CoreIn ν κ) (retained : Bool) : CoreOut ν κ :=
+  if retained then { targets := i.peers, drop := false, nonSharedOnly := false, sent := i.sent }
+  else
+    let a0 : Acc ν κ := { targets := [], sentSet := [], drop := false, nso := false, cnt := i.sent }
+    let a := (sharedListCore i).foldl (sharedStep sort i) a0
+    let extra := (dedupS i.fedNonShared).filter (fun n => !a.sentSet.contains n && i.peers.contains n)
+    { targets := a.targets ++ extra, drop := a.drop, nonSharedOnly := a.nso, sent := a.cnt }
+
+end core
+
+/-! ### the instance the code runs -/
 
 structure LocalSub where
   client : String
@@ -26,26 +106,12 @@ structure LocalSub where
 structure RouteIn where
   self    : String
   peers   : List String
-  fedSubs : List SubKey
-  locals  : List LocalSub
+  fedSubs : List SubKey                 -- content of `f.fedSubStore`
+  locals  : List LocalSub               -- content of `localSubStore.localStore` (the broker's own store)
   sent    : List (String × Nat)
   deriving Repr, Inhabited
 
-structure RouteOut where
-  targets : List String            -- peers whose queue got the message (one `queue.add` each), in call order
-  drop    : Bool                   -- local node must not deliver at all
-  nonSharedOnly : Bool             -- `options != nil`: local delivery restricted to non-shared subscriptions
-  sent    : List (String × Nat)    -- counters afterwards
-  deriving Repr, DecidableEq, Inhabited
-
-def counter (sent : List (String × Nat)) (t : String) : Nat := ((sent.find? (·.1 == t)).map (·.2)).getD 0
-
-def bump (sent : List (String × Nat)) (t : String) : List (String × Nat) :=
-  if sent.any (·.1 == t) then sent.map (fun p => if p.1 == t then (t, p.2 + 1) else p) else sent ++ [(t, 1)]
-
-/-- `sharedList[topic] = append(sharedList[topic], node)` -/
-def pushShared (sl : List (String × List String)) (t node : String) : List (String × List String) :=
-  if sl.any (·.1 == t) then sl.map (fun p => if p.1 == t then (t, p.2 ++ [node]) else p) else sl ++ [(t, [node])]
+abbrev RouteOut := CoreOut String String
 
 /-- is a local subscription visited by `localStore.Iterate(TypeAll ^ TypeShared, topic, MatchFilter)` -/
 def localNonSharedMatches (l : LocalSub) (topic : String) : Bool :=
@@ -54,48 +120,18 @@ def localNonSharedMatches (l : LocalSub) (topic : String) : Bool :=
 /-- `sort.Strings` -/
 def sortStrings (l : List String) : List String := l.mergeSort (fun a b => !(b < a))
 
-/-- the shared map built by the two `Iterate` calls: full shared topic ↦ node names (this node once per
-    matching local shared subscriber, every other node once per matching shared entry) -/
-def sharedList (i : RouteIn) (topic : String) : List (String × List String) :=
-  let l1 := (i.locals.filter (fun l => l.share != "" && sharedMatches l.filter topic)).foldl
-    (fun sl l => pushShared sl (fullName l.share l.filter) i.self) []
-  (i.fedSubs.filter (fun k => k.share != "" && subMatches k.share k.filter topic)).foldl
-    (fun sl k => pushShared sl (fullName k.share k.filter) k.node) l1
+/-- results of the three `Iterate` calls of `sendMessage` -/
+def toCore (i : RouteIn) (topic : String) : CoreIn String String :=
+  { self := i.self
+    peers := i.peers
+    localShared := (i.locals.filter (fun l => l.share != "" && sharedMatches l.filter topic)).map (fun l => fullName l.share l.filter)
+    fedShared := (i.fedSubs.filter (fun k => k.share != "" && subMatches k.share k.filter topic)).map
+      (fun k => (k.node, fullName k.share k.filter))
+    fedNonShared := (i.fedSubs.filter (fun k => k.share == "" && subMatches "" k.filter topic)).map (·.node)
+    localNonShared := i.locals.any (fun l => localNonSharedMatches l topic)
+    sent := i.sent }
 
-/-- the `nonShared` node set -/
-def nonSharedNodes (i : RouteIn) (topic : String) : List String :=
-  ((i.fedSubs.filter (fun k => k.share == "" && subMatches "" k.filter topic)).map (·.node)).eraseDups
-
-structure Acc where
-  targets : List String
-  sentSet : List String
-  drop    : Bool
-  nso     : Bool
-  cnt     : List (String × Nat)
-
-/-- one iteration of `sendSharedMsg`'s loop including the `send` closure of `sendMessage` -/
-def sharedStep (i : RouteIn) (topic : String) (a : Acc) (p : String × List String) : Acc :=
-  let v := sortStrings p.2
-  let pick := v.getD (counter a.cnt p.1 % v.length) ""
-  let a := { a with cnt := bump a.cnt p.1 }
-  if pick == i.self then a
-  else if a.sentSet.contains pick then a
-  else
-    let a := { a with sentSet := a.sentSet ++ [pick] }
-    if i.peers.contains pick then
-      if i.locals.any (fun l => localNonSharedMatches l topic) then
-        { a with targets := a.targets ++ [pick], drop := false, nso := true }
-      else
-        { a with targets := a.targets ++ [pick], drop := true }
-    else a
-
-/-- `sendMessage` -/
 def route (i : RouteIn) (topic : String) (retained : Bool) : RouteOut :=
-  if retained then { targets := i.peers, drop := false, nonSharedOnly := false, sent := i.sent }
-  else
-    let a0 : Acc := { targets := [], sentSet := [], drop := false, nso := false, cnt := i.sent }
-    let a := (sharedList i topic).foldl (sharedStep i topic) a0
-    let extra := (nonSharedNodes i topic).filter (fun n => !a.sentSet.contains n && i.peers.contains n)
-    { targets := a.targets ++ extra, drop := a.drop, nonSharedOnly := a.nso, sent := a.cnt }
+  routeCore sortStrings (toCore i topic) retained
 
 end GmqttVerif.Fed
